@@ -170,9 +170,13 @@ def _run_base(ctx):
             ctx.inst('R14.4', NB + ':set_notebook_diff_ignores', 'False -> guarded delete', ok,
                      'resets the path to its default differ' if ok else 'False does not (safely) reset the path', node)
         elif isinstance(test, ast.Call) and dotted(test.func) == 'isinstance':
-            st = [s for s in body if isinstance(s, ast.Assign)]
-            ok = bool(st) and isinstance(st[0].value, ast.Call) and ('func', NB + ':diff_ignore_keys') in cg.resolve(st[0].value.func, si) and \
-                isinstance(st[0].value.args[0], ast.Subscript) and dotted(st[0].value.args[0].value) == 'notebook_differs'
+            # the store into the table: a key filter around (something derived from) the differ currently installed, with (at least) the keys given
+            sdefs = local_defs(si)
+            st = [s for s in body if isinstance(s, ast.Assign) and isinstance(s.targets[0], ast.Subscript) and dotted(s.targets[0].value) == 'notebook_differs']
+            subk = loops[0].target.elts[1].id if isinstance(loops[0].target, ast.Tuple) and len(loops[0].target.elts) == 2 and isinstance(loops[0].target.elts[1], ast.Name) else None
+            ok = bool(st) and isinstance(st[0].value, ast.Call) and ('func', NB + ':diff_ignore_keys') in cg.resolve(st[0].value.func, si) and len(st[0].value.args) >= 2 and \
+                depends_on(si, st[0].value.args[0], lambda x: isinstance(x, ast.Subscript) and dotted(x.value) == 'notebook_differs', sdefs) is not None and \
+                (subk is None or depends_on(si, st[0].value.args[1], lambda x: isinstance(x, ast.Name) and x.id == subk, sdefs) is not None)
             seen['coll'] = True
             ctx.inst('R14.4', NB + ':set_notebook_diff_ignores', 'collection -> %s' % (repo.norm(st[0]) if st else '?'), ok,
                      'key filter wraps the differ currently installed for the path' if ok else 'key filter does not wrap the current differ', node)
